@@ -263,6 +263,9 @@ func replayConnCase(kr *keyring, c *connCase, parked bool) (diff string) {
 			} else {
 				n, err = conn.Read(buf)
 			}
+			if sym == "ZERO" && err != nil && n == 0 {
+				return "" // a zero-length handshake record is not legal TLS: refusing it is admissible; the history ends here
+			}
 			switch want[0] {
 			case "fwd":
 				if err != nil || !bytes.Equal(buf[:n], rec) {
@@ -301,6 +304,9 @@ func replayConnCase(kr *keyring, c *connCase, parked bool) (diff string) {
 			before := len(tr.written())
 			n, err := conn.Write(rec)
 			got := tr.written()[before:]
+			if sym == "ZERO" && err != nil && len(got) == 0 {
+				return "" // refusing a zero-length handshake record from the backend is admissible
+			}
 			switch want[0] {
 			case "fwd":
 				if err != nil || n != len(rec) || !bytes.Equal(got, rec) {
